@@ -245,6 +245,7 @@ def containers(rec, rng):
         'nested': {'a': [1, (2, 3), {4, 5}], 'b': {'c': np.arange(4.).reshape(2, 2), 'd': range(2, 10, 3)}, 'dtype': np.dtype('complex128')},
         'general-dict-keys': {(1, 2): 'x', 3: 'y', 'z': [None]},
         'shared-reference': {'first': shared, 'second': shared, 'list': [shared.legs[0], shared.legs[0]]},
+        'shared-tuple': (lambda t: {'first': t, 'second': t, 'nested': [t, (t, t)], 'as-key': {t: 'v'}})((1, 'x', 2.5)),
         'OrderedDict': collections.OrderedDict([('b', 1), ('a', [2])]),
         'deque': collections.deque([1, 2, 3], maxlen=5),
         'empty': {'l': [], 't': (), 'd': {}, 's': set()},
@@ -274,6 +275,9 @@ def containers(rec, rng):
                 diffs = equal(obj, back, name)
                 if diffs:
                     rec.violation(sig + ':not-equal', '; '.join(diffs[:4]), {'container': name})
+                if name == 'shared-tuple':
+                    rec.check(isinstance(back['first'], tuple) and back['first'] is back['second'] and back['nested'][0] is back['first'],
+                              sig + ':sharing-lost', 'a tuple referenced several times is not the same tuple after loading')
                 if name == 'shared-reference':
                     rec.check(back['first'] is back['second'] and back['list'][0] is back['list'][1], sig + ':sharing-lost',
                               'objects shared by reference before saving are distinct after loading')
